@@ -184,9 +184,51 @@ func checkDocSet(c *matchCase, e *searchEnv, qs kit.QSpec) (nExpected int, err e
 	}
 	missing, extra := diffSets(want, got)
 	if len(missing)+len(extra) > 0 {
-		return 0, classifyC01(qs, kit.Fail("docset", "query %s via %s: missing %q extra %q", q, c.Via, missing, extra))
+		d := kit.Fail("docset", "query %s via %s: missing %q extra %q", q, c.Via, missing, extra)
+		if c.Via == "dir" && len(missing) == 0 && singleHeadList(&c.Corpus, qs) {
+			// the sharded searcher's rewrite of a single-entry branch /
+			// repository list on HEAD (finding of C18): nothing is missing
+			// and every extra document belongs to a repository whose first
+			// branch is not named HEAD
+			other := map[string]bool{}
+			for i := range c.Corpus.Repos {
+				if c.Corpus.Repos[i].Branches[0].Name != "HEAD" {
+					other[c.Corpus.Repos[i].Name] = true
+				}
+			}
+			only := true
+			for _, k := range extra {
+				only = only && other[strings.SplitN(k, "|", 2)[0]]
+			}
+			if only {
+				d.Known = "C01-single-branchesrepos-head-rewrite"
+			}
+		}
+		return 0, classifyC01(qs, d)
 	}
 	return len(want), nil
+}
+
+// singleHeadList: the query's top level holds a single-entry branch /
+// repository list on "HEAD" that names a repository whose first branch has
+// another name (the input class of finding C18-single-branchesrepos-head-rewrite).
+func singleHeadList(c *kit.Corpus, qs kit.QSpec) bool {
+	kids := []kit.QSpec{qs}
+	if qs.Op == "and" {
+		kids = qs.Kids
+	}
+	for _, k := range kids {
+		if k.Op == "branchesrepos" && len(k.BR) == 1 && k.BR[0].Branch == "HEAD" {
+			for i := range c.Repos {
+				for _, id := range k.BR[0].IDs {
+					if c.Repos[i].ID == id && c.Repos[i].Branches[0].Name != "HEAD" {
+						return true
+					}
+				}
+			}
+		}
+	}
+	return false
 }
 
 // classifyC01 attaches known-finding ids to recognised discrepancies.
